@@ -89,6 +89,32 @@ claim("C13", "static inventory + interprocedural key provenance + who-may-call f
       "Decides which process-global state exists (inventory of interior-mutable statics against a reasoned table), that global maps are keyed by root-derived paths (one known finding), "
       "and that filesystem access is confined to triaged functions with root-derived operands. Observable interference itself is not decided.", design="4/C13")
 
+claim("C18", "MIR (stub harness) panic-freedom + def-use/ordering invariants + written lemma",
+      "The real metadata.rs is type-checked with stub dependencies and analysed on MIR: every panic obligation of apply/snapshot/restore is discharged or reported (operands sliced to "
+      "the decoded command can never be discharged), and seven structural invariants of apply are decided for all paths; with the lemma in the evidence they give contiguity 1..current, "
+      "immutability of sealed entries, leader consistency and offset = sum of counts for every command sequence.", design="4/C18",
+      note=MIR_NOTE + " distributed-walrus cannot be built offline; harness/dwshim type-checks the real file against signature-only stubs whose faithfulness is checked (C18.3).")
+claim("C20", "AST dataflow on the adapter + MIR type/whole-state obligations",
+      "Decides where the adapter's snapshot bytes come from and what restore receives (two known findings), unconditional in-order forwarding of Normal entries, and that Metadata "
+      "snapshot/restore are type-symmetric, whole-state and skip no field. The Raft snapshot transport is not decided.", note=AST_NOTE, engine="ast", design="4/C20")
+claim("C21", "AST path rules + literal-argument rule backed by MIR effect analysis of the vendored engine",
+      "Decides persist-before-acknowledge for every WalLogStore mutator, exhaustive replay of record kinds, the peer-address flag correlation, and that the recovery read is "
+      "non-consuming (known finding: it is durably consuming, shown via the vendored engine's MIR). Contents after replay are not decided.", note=AST_NOTE, engine="ast", design="4/C21")
+claim("C22", "AST path enumeration of bookkeeping pairings",
+      "Only the bookkeeping pairings without which the property fails on every schedule: one count per acknowledged append before the rollover test, the sealed count proposed is the "
+      "tracked count of that very segment, the reader's per-segment counter moves exactly with returned entries. The interleaving clauses (rollover racing appends, duplicate rollovers) "
+      "are explicitly not decided.", note=AST_NOTE, engine="ast", design="4/C22")
+claim("C23", "AST structural check of the lease/write critical section + who-may-call",
+      "Decides whether the lease test and the engine append form one critical section with respect to lease updates (two accepted idioms; known finding: check-then-lock-then-write), that "
+      "every engine write goes through append_by_key under the bucket guard, and that leases are refreshed before appends.", note=AST_NOTE, engine="ast", design="4/C23")
+claim("C24", "AST path enumeration of the frame loop",
+      "Enumerates every acyclic path of one iteration of the frame loop: body consumed or connection closed, exactly one response per frame, payload pass-through in the command parser. "
+      "Holds for every byte stream because each path is covered.", note=AST_NOTE, engine="ast", design="4/C24")
+claim("C25", "MIR (stub harness) codec obligations + written lemma",
+      "Codec obligations on the MIR of wal_key / parse_wal_key (template bytes, argument order/types, resolved str methods with their literals, the symbolic expression of the result) "
+      "plus the lemma in the evidence give parse(wal_key(t, s)) = (t, s) for all strings and all u64, hence injectivity.", design="4/C25",
+      note=MIR_NOTE + " controller/types.rs is type-checked through harness/dwshim.")
+
 ALL = ["C%02d" % i for i in range(1, 26)]
 PENDING = "check under construction in this round (planned in DESIGN.md section 4); not claimed until its rules exist and are calibrated"
 for p in ALL:
